@@ -324,7 +324,7 @@ class C03(E2EProp):
                              describe="every string <= %d over {< > & dq x e-acute} as the text of the go-up link (multi-file) and as the EPUB subject: the character data seen equals the text written" % n)
 
     def config_stream(self):
-        cases = config_cases(["x0", "x1", "x2"], docs=CONFIG_OUT) + config_cases(["e3"], ".X set document-title T\n.X set epub-uuid u\n", docs=CONFIG_OUT)
+        cases = config_cases(["x0", "x1", "x2"], docs=CONFIG_OUT) + config_cases(["e3"], ".X set document-title T\n.X set epub-uuid u\n.Ch A\n", docs=CONFIG_OUT)
         return e2e.E2EStream("S-e2e-xhtml-config", "e2e", cases, oracle=config_wf_oracle, exhaustive=True, nontrivial=nontrivial,
                              describe="values that stand in attributes or text without being rendered at assignment - lang, css, favicon, dialogue mark, header ids, chapter prefix, tag names - with markup characters, every XHTML mode: none is read as markup (D32, D33, D35)")
 
@@ -409,7 +409,7 @@ class C02(E2EProp):
         out = [("S-e2e-x0", fam_cases("x0", ALLFAM, T(tier, 3, 4), rng, T(tier, 2, 3), T(tier, 1500, 20000)), "XHTML fragments: family sequences, skeletons, random")]
         for fm in ("x1", "x2", "e3"):
             out.append(("S-e2e-" + fm, fam_cases(fm, ["head", "misc", "title"], 2, rng, None, T(tier, 300, 4000)), "mode %s" % fm))
-        out.append(("S-e2e-config", config_cases(["x0", "x1", "x2"], docs=CONFIG_IN) + config_cases(["e3"], ".X set document-title T\n.X set epub-uuid u\n", docs=CONFIG_IN),
+        out.append(("S-e2e-config", config_cases(["x0", "x1", "x2"], docs=CONFIG_IN) + config_cases(["e3"], ".X set document-title T\n.X set epub-uuid u\n.Ch A\n", docs=CONFIG_IN),
                     "inside the quantifier of C02: image paths with special characters given as arguments, attribute keys (D31, D34), every XHTML mode"))
         return out
 
@@ -1096,12 +1096,7 @@ class C14(E2EProp):
         if 'full-path="EPUB/content.opf"' not in files.get("META-INF/container.xml", ""):
             return "container does not point at the package file"
         opf = files.get("EPUB/content.opf", "")
-        # every XML file of the book is well formed (D31: file names in the package file and the cover page)
-        for n, text in files.items():
-            if n.endswith((".opf", ".xhtml", ".ncx", ".xml")):
-                e = oracles.xml_wf(text, False)
-                if e and "KNOWN:" not in (oracles.c02_oracle(case, go) or "KNOWN:"):
-                    return "file %r is not well-formed XML: %s" % (n, e)
+        # (well-formedness of these files is C02's clause, not C14's; file names are compared after unescaping)
         import html as _html
         items = [_html.unescape(h) for h in re.findall(r'<item\s[^>]*href="([^"]*)"[^>]*>', opf)]
         for h in items:
